@@ -388,7 +388,9 @@ func (c *EvalCtx) localVar(name string) (TV, bool) {
 		}
 		return TV{}, false
 	}
-	st := c.state()
+	// a local variable has no "old" value of its own: inside old(...) it denotes its current value (only the heap and
+	// the parameters are taken from the entry state)
+	st := c.st
 	elem := found.Type().(*types.Pointer).Elem()
 	if !found.Heap {
 		cell := st.allocOf[found]
@@ -1102,7 +1104,7 @@ func (c *EvalCtx) undefinedLocal(name string, t types.Type) TV {
 	if p, ok := c.x.params[name]; ok {
 		return p // a parameter whose cell is not allocated yet: its entry value
 	}
-	st := c.state()
+	st := c.st
 	v := c.x.freshValue(st, "undef."+name, t)
 	return TV{V: v, T: t, S: c.prog.sortOf(t)}
 }
